@@ -148,9 +148,9 @@ def parse_enum_variants(enum_text):
 
 
 def gen_selectors(variants, needed):
-    """D4: snafu context selectors.  For each variant with a `source: Box<Error>` field that is used
-    as `.context(Sel ...)` in the unit, a selector struct with the remaining fields and a spec `wrap`
-    that builds exactly that variant (what snafu's derive generates)."""
+    """D4: snafu context selectors.  For each variant with a `source` field that is used as
+    `.context(Sel ...)` in the unit: a selector struct with the remaining fields and a spec `wrap` that
+    builds exactly that variant (what snafu's derive generates; `source: Box<Error>` is boxed)."""
     out = []
     byname = dict(variants)
     for n in needed:
@@ -158,36 +158,41 @@ def gen_selectors(variants, needed):
             raise Undecided(f"context selector {n} has no variant in enum Error")
         fields = byname[n]
         src = [f for f in fields if f[0] == "source"]
-        if not src or src[0][1] != "Box<Error>":
-            raise Undecided(f"selector {n}: variant has no `source: Box<Error>`")
+        if not src:
+            raise Undecided(f"selector {n}: variant has no `source` field")
+        sty = src[0][1]
+        if sty == "Box<Error>":
+            ety, sexp = "Error", "Box::new(e)"
+        else:
+            ety, sexp = sty, "e"
         rest = [f for f in fields if f[0] != "source"]
         if rest:
             decl = "pub struct %s { %s }\n" % (n, ", ".join(f"pub {a}: {b}" for a, b in rest))
             build = ", ".join(f"{a}: self.{a}" for a, _ in rest)
-            out.append(decl + f"impl Selector for {n} {{ open spec fn wrap(self, e: Error) -> Error "
-                       f"{{ Error::{n}{{source: Box::new(e), {build}}} }} }}\n")
+            out.append(decl + f"impl Selector<{ety}> for {n} {{ open spec fn wrap(self, e: {ety}) -> Error "
+                       f"{{ Error::{n}{{source: {sexp}, {build}}} }} }}\n")
         else:
-            out.append(f"pub struct {n};\nimpl Selector for {n} {{ open spec fn wrap(self, e: Error) -> Error "
-                       f"{{ Error::{n}{{source: Box::new(e)}} }} }}\n")
+            out.append(f"pub struct {n};\nimpl Selector<{ety}> for {n} {{ open spec fn wrap(self, e: {ety}) -> Error "
+                       f"{{ Error::{n}{{source: {sexp}}} }} }}\n")
     return "".join(out)
 
 
 SELECTOR_PRELUDE = """
-// D4: snafu's `.context(Selector)` on a Result: Ok stays Ok with the same value; Err(e) becomes
-// Err(<variant named like the selector>{source: Box::new(e), ..selector fields}).
-pub trait Selector: Sized {
-    spec fn wrap(self, e: Error) -> Error;
+// D4: snafu's `.context(Selector)` on a Result<T, E>: Ok stays Ok with the same value; Err(e) becomes
+// Err(<variant named like the selector>{source: e (boxed for Box<Error>), ..selector fields}).
+pub trait Selector<E>: Sized {
+    spec fn wrap(self, e: E) -> Error;
 }
-pub trait ResultExt<T>: Sized {
-    spec fn view_res(self) -> Result<T>;
-    fn context<S: Selector>(self, s: S) -> (r: Result<T>)
+pub trait ResultExt<T, E>: Sized {
+    spec fn view_res(self) -> std::result::Result<T, E>;
+    fn context<S: Selector<E>>(self, s: S) -> (r: Result<T>)
         ensures
             match self.view_res() { Ok(v) => r == Ok::<T, Error>(v), Err(e) => r == Err::<T, Error>(s.wrap(e)) };
 }
-impl<T> ResultExt<T> for Result<T> {
-    open spec fn view_res(self) -> Result<T> { self }
+impl<T, E> ResultExt<T, E> for std::result::Result<T, E> {
+    open spec fn view_res(self) -> std::result::Result<T, E> { self }
     #[verifier::external_body]
-    fn context<S: Selector>(self, s: S) -> (r: Result<T>) { unimplemented!() }
+    fn context<S: Selector<E>>(self, s: S) -> (r: Result<T>) { unimplemented!() }
 }
 """
 
